@@ -631,6 +631,7 @@ func (o *ovsdbClient) update(params []json.RawMessage, reply *[]interface{}) err
 		o.metrics.numTableUpdates.WithLabelValues(cookie.DatabaseName, tableName).Inc()
 	}
 
+	verifPause("update.before-lock")
 	db.cacheMutex.Lock()
 	if db.deferUpdates {
 		db.deferredUpdates = append(db.deferredUpdates, &bufferedUpdate{&updates, nil, ""})
@@ -672,6 +673,7 @@ func (o *ovsdbClient) update2(params []json.RawMessage, reply *[]interface{}) er
 		return fmt.Errorf("update: invalid database name: %s unknown", cookie.DatabaseName)
 	}
 
+	verifPause("update.before-lock")
 	db.cacheMutex.Lock()
 	if db.deferUpdates {
 		db.deferredUpdates = append(db.deferredUpdates, &bufferedUpdate{nil, &updates, ""})
@@ -719,6 +721,7 @@ func (o *ovsdbClient) update3(params []json.RawMessage, reply *[]interface{}) er
 		return fmt.Errorf("update: invalid database name: %s unknown", cookie.DatabaseName)
 	}
 
+	verifPause("update.before-lock")
 	db.cacheMutex.Lock()
 	if db.deferUpdates {
 		db.deferredUpdates = append(db.deferredUpdates, &bufferedUpdate{nil, &updates, lastTransactionID})
@@ -1023,6 +1026,7 @@ func (o *ovsdbClient) monitor(ctx context.Context, cookie MonitorCookie, reconne
 		o.metrics.numMonitors.Inc()
 	}
 
+	verifPause("monitor.reply-received")
 	db.cacheMutex.Lock()
 	defer db.cacheMutex.Unlock()
 
